@@ -289,6 +289,11 @@ func realLoad(raw json.RawMessage) any {
 	}
 	home := filepath.Join(root, "home")
 	os.MkdirAll(home, 0o755)
+	if old, had := os.LookupEnv("HOME"); had {
+		defer os.Setenv("HOME", old)
+	} else {
+		defer os.Unsetenv("HOME")
+	}
 	os.Setenv("HOME", home)
 	// label files are read by the loader: create the one the property says is meant, when it lies inside the temp root
 	if a.Attr == "label_file" {
